@@ -43,7 +43,7 @@ def zext( value, new_width ):
 
 def clog2( N ):
   assert N > 0
-  return int( math.ceil( math.log( N, 2 ) ) )
+  return ( int( math.ceil( N ) ) - 1 ).bit_length()
 
 def sext( value, new_width ):
   if isinstance( new_width, int ):
